@@ -38,8 +38,10 @@ def run_spec(spec, keep_full=True, timeout=None):
     """Execute a spec on a pristine module set: in-process on freshly executed
     modules ('reimport'), or additionally in a freshly forked process ('fork')."""
     timeout = timeout or _STATE["cfg"].get("run_timeout", 120)
+    spec.setdefault("max_steps", 5_000_000 if _STATE["cfg"].get("tier") != "thorough" else 50_000_000)
+    spec.setdefault("deadline_s", float(timeout))
     if _STATE["isolation"] == "fork":
-        return proc.call_in_child(_exec_child, (spec, keep_full), timeout=timeout, what="run")
+        return proc.call_in_child(_exec_child, (spec, keep_full), timeout=timeout + 30, what="run")
     try:
         return engine.execute(loader.fresh(), spec, keep_full=keep_full)
     except engine.StepCap as e:
@@ -91,6 +93,8 @@ def evaluate(spec):
             solos.append(baseline(digest(sspec), sspec))
         if spec.get("schedule") is None and not spec.get("est_steps"):
             spec["est_steps"] = sum(s["steps"] for s in solos)
+        # together the actors take exactly the steps they take alone; far more = hang
+        spec["max_steps"] = 20 * sum(s["steps"] for s in solos) + 200_000
         result = run_spec(spec)
         viols = c13.judge(spec, result, solos)
         return viols, result, {"solos": solos}
